@@ -76,6 +76,40 @@ def blocking_case(chk, s, rng, c, prev):
     return rid
 
 
+def http_case(chk, s, rng, c, prev):
+    """KSI_Signature_signAggregated over the HTTP client (scripted libcurl): the request is what is handed to curl_easy_perform"""
+    req, a = c["req"], c["reply"]
+    doc = ksi.imprint(ALG[req["alg"]], b"c07h-%d" % rng.randrange(1 << 30)); level = req["level"]
+    out = s.cmd("SIGN %s %d" % (doc.hex(), level))
+    posts = [l for l in out if l.startswith("E http")]
+    if a["what"] == "-":
+        r = [l for l in out if l.startswith("R sign")]
+        if posts or not r or "rc=0x0" in r[0].split():
+            chk.violation("deprecated-algorithm-not-refused:http", "signing a %s hash over HTTP: %s" % (req["alg"], out[-1][:200]), dict(log=s.log[-20:]))
+        return prev
+    if not out or not out[-1].startswith("Q http"):
+        chk.violation("no-request:http", "signing over HTTP did not perform a request: %s" % [x[:100] for x in out], dict(log=s.log[-20:])); return prev
+    f0 = dict(x.split("=", 1) for x in posts[-1].split()[2:])
+    url = bytes.fromhex(f0["url"]).decode("latin1")
+    if "anon" in url.split("//", 1)[-1].split("/", 1)[0] or not url.startswith("http://h0.example:8080/"):
+        chk.violation("request:http-url", "URL handed to the HTTP transport: %r" % url, dict(log=s.log[-10:]))
+    f = wire.request_fields(bytes.fromhex(f0["post"]))
+    check_request(chk, f, doc, level, "HTTP signAggregated")
+    rid = int.from_bytes(f["payload"].get(1, b""), "big")
+    reply = wire.sign_reply(a, rng, rid, doc, level, prev)
+    honest = all(wire_good("sign").get(k) == v for k, v in a.items())
+    if reply is None:
+        s.cmd("HTTPERR %d" % rng.choice([7, 28, 52, 56]))          # could not connect / timed out / empty reply / receive error
+    else:
+        s.cmd("HTTP %d %s %d" % (200 if honest else rng.choice([200, 200, 500, 404]), reply.hex(), rng.choice([0, 1, 7, 100])))
+    out = s.cmd("GO")
+    r = [l for l in out if l.startswith("R sign")][0]
+    ok = " rc=0x0 " in r + " "
+    f2 = dict(x.split("=", 1) for x in r.split()[2:] if "=" in x)
+    judge(chk, c, ok, f2.get("sighash") == doc.hex(), "http", r, s)
+    return rid
+
+
 def judge(chk, c, ok, hash_ok, transport, line, s):
     exp = c["result"] == "success"
     diff = sorted(k for k, v in c["reply"].items() if wire_good(c["req"]["kind"]).get(k) != v)
@@ -148,8 +182,12 @@ def run(chk, tier, seed):
         s.cmd("BNEW")
         prev = None
         for c in cases_run:
-            if c["req"]["api"] != "async":
+            if c["req"]["api"] not in ("async", "http"):
                 prev = blocking_case(chk, s, rng, c, prev); n += 1
+        s.cmd("HNEW"); prev = None
+        for c in cases_run:
+            if c["req"]["api"] == "http":
+                prev = http_case(chk, s, rng, c, prev); n += 1
         for c in cases_run:
             if c["req"]["api"] == "async":
                 async_case(chk, s, rng, c, n); n += 1
@@ -162,9 +200,9 @@ def run(chk, tier, seed):
             chk.violation("crash:sign:exit", "driver exited rc=%s (leak or sanitizer report)\n%s" % (rc, err[-2500:]), {})
     chk.sample(dict(kind="behaviour replayed", case=cases_run[len(cases_run) // 2]))
     chk.add(evaluations=n, distinct_nontrivial=len(cases_run), model_behaviours=len(cases), exhaustive=(tier == "thorough"),
-            rule="every behaviour of SignExtend.tla (sign requests: 3 algorithms x levels {0,3,250} x {signAggregated, createSignature}; replies deviating from the honest "
+            rule="every behaviour of SignExtend.tla (sign requests: 3 algorithms x levels {0,3,250} x {signAggregated, createSignature over TCP; async service; signAggregated over HTTP}; replies deviating from the honest "
                  "one in at most 2 of 9 attributes) -- quick replays all single deviations + 400 sampled double deviations -- over the blocking TCP client and the async service")
-    chk.assumptions += ["HTTP transport (libcurl) and the block signer are not bound here", "replies are built by the independent reference aggregator tools/ksi.py / tools/wire.py"]
+    chk.assumptions += ["the HTTP client is bound through a scripted libcurl (curl_easy_* defined by the driver): URL, headers and POST body are observed at curl_easy_perform; libcurl itself is not run; the block signer is bound in C16", "replies are built by the independent reference aggregator tools/ksi.py / tools/wire.py"]
 
 
 def replay(chk, path):
